@@ -1,7 +1,6 @@
 package model
 
 import (
-	"encoding/json"
 	"fmt"
 	"reflect"
 
@@ -40,10 +39,9 @@ func Clone(a Model) Model {
 	}
 
 	val := reflect.Indirect(reflect.ValueOf(a))
-	b := reflect.New(val.Type()).Interface()
-	aBytes, _ := json.Marshal(a)
-	_ = json.Unmarshal(aBytes, b)
-	return b
+	b := reflect.New(val.Type())
+	deepCopy(b.Elem(), val)
+	return b.Interface()
 }
 
 // CloneInto deep copies a model into another one
@@ -53,8 +51,66 @@ func CloneInto(src, dst Model) {
 		return
 	}
 
-	aBytes, _ := json.Marshal(src)
-	_ = json.Unmarshal(aBytes, dst)
+	srcVal := reflect.Indirect(reflect.ValueOf(src))
+	dstVal := reflect.Indirect(reflect.ValueOf(dst))
+	if !dstVal.CanSet() || srcVal.Type() != dstVal.Type() {
+		return
+	}
+	deepCopy(dstVal, srcVal)
+}
+
+// deepCopy copies src into dst without sharing any pointer, slice or map.
+// Models used to be copied through JSON, which cannot represent every model
+// (a map keyed by a real or boolean column type has no JSON encoding: the
+// error was dropped and the copy came out empty).
+func deepCopy(dst, src reflect.Value) {
+	switch src.Kind() {
+	case reflect.Ptr:
+		if src.IsNil() {
+			dst.Set(reflect.Zero(src.Type()))
+			return
+		}
+		p := reflect.New(src.Type().Elem())
+		deepCopy(p.Elem(), src.Elem())
+		dst.Set(p)
+	case reflect.Slice:
+		if src.IsNil() {
+			dst.Set(reflect.Zero(src.Type()))
+			return
+		}
+		s := reflect.MakeSlice(src.Type(), src.Len(), src.Len())
+		for i := 0; i < src.Len(); i++ {
+			deepCopy(s.Index(i), src.Index(i))
+		}
+		dst.Set(s)
+	case reflect.Map:
+		if src.IsNil() {
+			dst.Set(reflect.Zero(src.Type()))
+			return
+		}
+		m := reflect.MakeMapWithSize(src.Type(), src.Len())
+		iter := src.MapRange()
+		for iter.Next() {
+			k := reflect.New(src.Type().Key()).Elem()
+			deepCopy(k, iter.Key())
+			v := reflect.New(src.Type().Elem()).Elem()
+			deepCopy(v, iter.Value())
+			m.SetMapIndex(k, v)
+		}
+		dst.Set(m)
+	case reflect.Struct:
+		for i := 0; i < src.NumField(); i++ {
+			if dst.Field(i).CanSet() {
+				deepCopy(dst.Field(i), src.Field(i))
+			}
+		}
+	case reflect.Array:
+		for i := 0; i < src.Len(); i++ {
+			deepCopy(dst.Index(i), src.Index(i))
+		}
+	default:
+		dst.Set(src)
+	}
 }
 
 func Equal(l, r Model) bool {
